@@ -227,5 +227,10 @@ Definition table_okb (t : list (bytes * bytes)) : bool :=
                     match lookup t (fst p) with Some b => bytes_eqb b (snd p) | None => false end &&
                     match rlookup t (snd p) with Some a => bytes_eqb a (fst p) | None => false end) t.
 
+(* "replaced by a substitute": a string of 8 bytes or more that comes out unchanged was not obfuscated (a permutation of
+   256^8 strings fixes a given one with probability 256^-8; shorter strings may legitimately map to themselves) *)
+Definition replaced_okb (t : list (bytes * bytes)) : bool :=
+  forallb (fun p => Nat.ltb (length (fst p)) 8 || negb (bytes_eqb (fst p) (snd p))) t.
+
 Definition enc_of (t : list (bytes * bytes)) (s : bytes) : bytes :=
   match lookup t s with Some b => b | None => s end.
